@@ -1,4 +1,7 @@
-import Preflate.Props.Library
+import Preflate.Props.LibrarySmall
+#print axioms Preflate.library_round_trip_small
+#print axioms Preflate.library_end_to_end_small
+#print axioms Preflate.library_correction_size
 #print axioms Preflate.library_round_trip
 #print axioms Preflate.library_no_panic
 #print axioms Preflate.recreate_expand_on
